@@ -7,11 +7,19 @@ Theorem C04 : forall rules meth panics_inside mutating
 Proof. exact C04_proved. Qed.
 Print Assumptions C04.
 
-(* for flat rule sets (proofs/Frame.v: top-level names, field chains and literal selectors F.X, F.In.X, F.Arr[2], F.M["k"] - no computed selectors, methods or functions - constants, negation, parentheses, binary operators;
-   assignments and control built-ins) both hypotheses are theorems *)
+(* for flat rule sets (proofs/Frame.v: top-level names, field chains and literal selectors F.X, F.In.X, F.Arr[2], F.M["k"];
+   constants, negation, parentheses, binary operators; calls of admitted methods - side-effect free, independent of the
+   receiver's state, not the built-in Len - on such variables; assignments and control built-ins as actions) both hypotheses
+   on the rules are theorems *)
 Theorem C04_flat : forall meth panics_inside mutating
   (meth_pure : forall fs f args ret fs', mutating f = false -> meth fs f args = Ok (ret, fs') -> fs' = fs)
-  rules, flat_rules rules = true ->
+  (okmeth : string -> bool)
+  (ok_pure : forall f, okmeth f = true -> mutating f = false)
+  (ok_stateless : forall f, okmeth f = true -> forall fs fs' args,
+     match meth fs f args, meth fs' f args with
+     | Ok (r, _), Ok (r', _) => r = r' | Err, Err => True | Panic, Panic => True | _, _ => False end)
+  (ok_not_len : forall f, okmeth f = true -> f <> "Len"%string)
+  rules, flat_rules okmeth rules = true ->
   C04_statement rules meth panics_inside mutating.
 Proof. exact FrameTheorems.C04_flat. Qed.
 Print Assumptions C04_flat.
